@@ -456,6 +456,64 @@ theorem any_spec {st : St} (hw : WF st) (a : Bytes)
     obtain ⟨kr, hkr, hkrr⟩ := mem_allPrices.mp hr
     exact ts_le_of_body (by rw [ha, ra]) hs (hkve ▸ hw.2.2 kv hkv) (hkrr ▸ hw.2.2 kr hkr) (hmax e he hpe)
 
+/-! ### the name-level sufficient condition -/
+
+/-- a separator-free prefix of `X ++ "/" ++ Y` is a prefix of `X`. -/
+theorem isPrefix_sep_free : ∀ (q X Y : Bytes), (47 ∈ q → False) →
+    isPrefix q (X ++ 47 :: Y) = true → isPrefix q X = true
+  | [], _, _, _, _ => by simp [isPrefix]
+  | c :: q, [], Y, h, hp => by
+    simp [isPrefix] at hp
+    exact absurd (by rw [hp.1]; exact List.mem_cons_self ..) h
+  | c :: q, x :: X, Y, h, hp => by
+    simp only [List.cons_append, isPrefix, Bool.and_eq_true, decide_eq_true_eq] at hp ⊢
+    exact ⟨hp.1, isPrefix_sep_free q X Y (fun hm => h (List.mem_cons_of_mem _ hm)) hp.2⟩
+
+theorem noCollision_of_names {st : St} {a : Bytes} (h : namesNoCollision st a = true) :
+    noCollision st a = true := by
+  unfold namesNoCollision at h
+  simp only [Bool.and_eq_true, Bool.not_eq_true', List.all_eq_true] at h
+  obtain ⟨ha, hall⟩ := h
+  have ha' : 47 ∈ a → False := by
+    intro hm; have : a.contains 47 = true := List.contains_iff_mem.mpr hm
+    rw [ha] at this; cases this
+  have hE : 47 ∈ a ++ ELYS → False := by
+    intro hm; rcases List.mem_append.mp hm with h1 | h1
+    · exact ha' h1
+    · revert h1; decide
+  have hB : 47 ∈ a ++ BAND → False := by
+    intro hm; rcases List.mem_append.mp hm with h1 | h1
+    · exact ha' h1
+    · revert h1; decide
+  unfold noCollision
+  rw [List.all_eq_true]
+  intro e he
+  have hn := hall e he
+  have body_eq : e.body = (e.asset ++ e.source) ++ 47 :: be64 e.ts := by
+    simp [Price.body, sep, List.append_assoc]
+  simp only [namesCollide, Bool.or_eq_false_iff] at hn
+  obtain ⟨⟨n1, n2⟩, n3⟩ := hn
+  simp only [collidesWith, Bool.not_eq_true', Bool.or_eq_false_iff]
+  refine ⟨⟨?_, ?_⟩, ?_⟩
+  · cases hp : isPrefix (a ++ ELYS) e.body with
+    | false => simp
+    | true =>
+      rw [body_eq] at hp
+      rw [isPrefix_sep_free _ _ _ hE hp] at n1
+      simpa using n1
+  · cases hp : isPrefix (a ++ BAND) e.body with
+    | false => simp
+    | true =>
+      rw [body_eq] at hp
+      rw [isPrefix_sep_free _ _ _ hB hp] at n2
+      simpa using n2
+  · cases hp : isPrefix a e.body with
+    | false => simp
+    | true =>
+      rw [body_eq] at hp
+      rw [isPrefix_sep_free _ _ _ ha' hp] at n3
+      simpa using n3
+
 /-! ### `EndBlock` is a filter -/
 
 def expired (pr : Params) (t h : Nat) (p : Price) : Bool := expiredByTime pr t p || expiredByHeight pr h p
